@@ -26,6 +26,40 @@ fn faulty_variant(r: &mut Rng, text: &str) -> String {
     }
 }
 
+/// programs whose diagnostics would depend on hash-map iteration order if anything iterated one: several
+/// independently failing, unread scoped variables; several unused captures; several conflicting attributes
+fn hash_order_hostile(r: &mut Rng) -> String {
+    let names = ["alpha", "bravo", "charlie", "delta", "echo", "foxtrot", "golf"];
+    let k = r.range(2, 6);
+    let mut t = String::new();
+    match r.below(3) {
+        0 => {
+            t.push_str("(module) @m {\n");
+            for n in &names[..k] {
+                t.push_str(&format!("  let @m.{} = 1\n  let @m.{} = 2\n", n, n));
+            }
+            t.push_str("}\n");
+        }
+        1 => {
+            // the same across two stanzas, definitions interleaved with unrelated work
+            t.push_str("(module) @m {\n  node n\n");
+            for n in &names[..k] {
+                t.push_str(&format!("  let @m.{} = (node)\n", n));
+            }
+            t.push_str("}\n(module) @m2 {\n");
+            for n in names[..k].iter().rev() {
+                t.push_str(&format!("  let @m2.{} = \"again\"\n", n));
+            }
+            t.push_str("}\n");
+        }
+        _ => {
+            let caps: Vec<String> = names[..k].iter().map(|n| format!("@{}", n)).collect();
+            t.push_str(&format!("(module (_) {}) @_m {{ }}\n", caps.join(" ")));
+        }
+    }
+    t
+}
+
 /// transcript of one (text, source) pair: load result and both modes' results, all in canonical form
 fn transcript(text: &str, src: &str, globals: &[(String, tree_sitter_graph::graph::Value)]) -> String {
     match load(text) {
@@ -53,7 +87,7 @@ pub fn child(seed: u64, n: usize) {
         let mut r = root.fork(pi as u64);
         let opts = opts_for(pi, &mut r);
         let program = gen_program(&mut r, &pool, &opts);
-        let text = if pi % 5 == 4 { faulty_variant(&mut r, &program.text) } else { program.text.clone() };
+        let text = if pi % 5 == 4 { faulty_variant(&mut r, &program.text) } else if pi % 7 == 6 { hash_order_hostile(&mut r) } else { program.text.clone() };
         let source = gen_source(&mut r, true, false);
         let globals = supply_globals(&mut r, &program);
         println!("{}", transcript(&text, &source.src, &globals));
@@ -96,7 +130,7 @@ pub fn run(rep: &mut Report, tier: &str, seed: u64) {
         let mut r = root.fork(pi as u64);
         let opts = opts_for(pi, &mut r);
         let program = gen_program(&mut r, &pool, &opts);
-        let text = if pi % 5 == 4 { faulty_variant(&mut r, &program.text) } else { program.text.clone() };
+        let text = if pi % 5 == 4 { faulty_variant(&mut r, &program.text) } else if pi % 7 == 6 { hash_order_hostile(&mut r) } else { program.text.clone() };
         let _ = gen_source(&mut r, true, false); // keep the PRNG stream aligned with `child`
         let globals = supply_globals(&mut r, &program);
         // (1) repeated loading
